@@ -124,3 +124,51 @@ contract(DL + '.factory', props=['C11'], blocks_only=True,
                  f' and union_int(elems(values_list)[len({CHARS})]) == cstr_terminator)',
                  f'implies(not (directive_str == ".cstr" or directive_str == ".asciiz"), len(values_list) == len({CHARS}))'],
              modifies=[], allocates=True)})
+
+# ---- .zero n / .zerountil a are fills with the value 0 ------------------------------------------------------------------
+FD = LO + '.directive_line.fill_data:FillDataLine'
+FU = LO + '.directive_line.fill_data:FillUntilDataLine'
+SAME = ('forall(lambda s: xval({e}, s) == text_value({t}, s) and xfails({e}, s) == text_fails({t}, s),'
+        ' types={{"s": "LabelScope?"}})')
+LINE_FIELDS = ['self._line_id', 'self._instruction', 'self._comment', 'self._address', 'self._label_scope', 'self._memzone',
+               'self._is_muted', 'self._bytes', 'self._compilable']
+contract(FD + '.__init__', props=['C11'], params={'current_memzone': 'MemoryZone?'},
+         may_raise={'SystemExit': 'True', 'SyntaxError': 'True'},
+         ensures=[SAME.format(e='self._count_expr', t='fill_count_expression'),
+                  SAME.format(e='self._value_expr', t='fill_value_expression'),
+                  'self._count is None', 'self._value is None', 'len(self._bytes) == 0'],
+         modifies=LINE_FIELDS + ['self._count_expr', 'self._value_expr', 'self._count', 'self._value'],
+         allocates=True, no_frame_check=True)
+contract(FU + '.__init__', props=['C11'], params={'current_memzone': 'MemoryZone?'},
+         may_raise={'SystemExit': 'True', 'SyntaxError': 'True'},
+         ensures=[SAME.format(e='self._fill_until_addr_expr', t='fill_until_address_expresion'),
+                  SAME.format(e='self._fill_value_expr', t='fill_value_expression'),
+                  'self._fill_until_addr is None', 'self._fill_value is None', 'len(self._bytes) == 0'],
+         modifies=LINE_FIELDS + ['self._fill_until_addr_expr', 'self._fill_value_expr', 'self._fill_until_addr',
+                                 'self._fill_value', 'self._count'],
+         allocates=True, no_frame_check=True)
+
+DF = LO + '.directive_line.factory:DirectiveLine.factory'
+ZERO_IS_0 = SAME.format(e='value_of(result)._value_expr', t='"0"')
+contract(DF, props=['C11'], blocks_only=True, returns='LineObject?',
+         # (`^(?:\.zerountil)\s+(<expression>)`: the one group is not optional)
+         regex_facts={'DirectiveLine.PATTERN_ZEROUNTIL_DIRECTIVE': [1]},
+         params={'line_id': 'LineIdentifier', 'current_memzone': 'MemoryZone?'},
+         locals={'line_match': 'match?', 'cleaned_line_str': 'str'},
+         blocks={
+             'zero': dict(
+                 where='from:line_match = re.search(DirectiveLine.PATTERN_ZERO_DIRECTIVE:2', locals={},
+                 requires=[], may_raise={'SystemExit': 'True', 'SyntaxError': 'True', 'TypeError': 'True'}, ensures=[],
+                 on_return=[  # .zero n is a fill of n bytes with the value of the text "0"
+                     'result is not None and isa(value_of(result), "FillDataLine")',
+                     SAME.format(e='value_of(result)._value_expr', t='"0"'),
+                     SAME.format(e='value_of(result)._count_expr', t='value_of(value_of(line_match).group(1))')],
+                 modifies=[], allocates=True),
+             'zerountil': dict(
+                 where='from:line_match = re.search(DirectiveLine.PATTERN_ZEROUNTIL_DIRECTIVE:2', locals={},
+                 requires=[], may_raise={'SystemExit': 'True', 'SyntaxError': 'True', 'TypeError': 'True'}, ensures=[],
+                 on_return=[  # .zerountil a fills with the value of the text "0" up to the address a
+                     'result is not None and isa(value_of(result), "FillUntilDataLine")',
+                     SAME.format(e='value_of(result)._fill_value_expr', t='"0"'),
+                     SAME.format(e='value_of(result)._fill_until_addr_expr', t='value_of(value_of(line_match).group(1))')],
+                 modifies=[], allocates=True)})
